@@ -151,6 +151,8 @@ def cases(draw, P):
             ops.append(["shutdown", False, False])
         elif end == "wait_shutdown":
             ops += [["wait_all"], ["shutdown", True, False]]
+        elif end == "shutdown_then_submit":
+            ops += [["shutdown", True, False], ["submit", {"kind": "echo", "token": i * 100 + len(mine)}]]
         elif end == "kill":
             ops.append(["shutdown", True, True])
         elif end == "del" and cfg["executor"] == "plain":
@@ -161,7 +163,9 @@ def cases(draw, P):
             ops.append(["sleep", 1e-3])
         program.append(ops)
     if uses_gate and not P.get("gates_never_open"):
-        program.append([["sleep", draw(st.sampled_from([1e-3, 0.4, 3.0, 20.0]))], ["open_gate", 0]])
+        program.append([["sleep", draw(st.sampled_from(P.get("gate_delays", [1e-3, 0.4, 3.0, 20.0])))], ["open_gate", 0]])
+    if P.get("probe"):
+        program.append([["hold"], ["sleep", 5000.0], ["probe", P["probe"]]])
     case = {"config": cfg, "program": program, "schedule": draw(schedules(P)),
             "faults": draw(fault_lists(P, cfg)) if P["max_faults"] else []}
     return case
